@@ -320,7 +320,7 @@ def run_history(rec, case):
 def plan(tier, seed):
     n = 16
     if tier == 'thorough':
-        shards = [{'seed': seed, 'shard': s, 'n': 400, 'nact': 400, 'maxs': 25}
+        shards = [{'seed': seed, 'shard': s, 'n': 1200, 'nact': 400, 'maxs': 25}
                   for s in range(n - 2)]
         shards += [{'seed': seed, 'shard': 100 + s, 'n': 30, 'nact': 2000,
                     'maxs': 40} for s in range(2)]
